@@ -19,6 +19,7 @@
 //! (`program_to_sexp`), [`run`] (`new_vm`, `run`, `run_program`, `Outcome`, `ErrKind`),
 //! [`value`] (`canon`, `canon_typed`).
 pub mod ast;
+pub mod bytecode;
 pub mod generate;
 pub mod print;
 pub mod run;
